@@ -9,7 +9,7 @@ from .. import scenes, obs, oracles, pipeline, twin
 ID, NUM, LEVEL = 'C09', 9, 'exploration'
 RULE = ('Evaluation = one case digested in four fresh processes that differ in PYTHONHASHSEED (0, 1, 123, random), in '
         'the global NumPy seed / position (incl. a cached Gaussian), in the order the cases are processed and in '
-        'what ran before (other cases, demo, plots), and twice in a row inside one process: all digests (tables, '
+        'what ran before (other cases, the same hits with other parameter values, demo), and twice in a row inside one process: all digests (tables, '
         'per-hit data, messages; exact float bit patterns) must be equal. Every public call (run, metar_msg, demo, '
         'canonical_demo_data, mock_layers under tmp_seed, tmp_seed with a raising body, direct ncomp_from_gmm with '
         'several random_seed values incl. 0) is bracketed by numpy.random.get_state() and compared field by '
@@ -21,7 +21,7 @@ ASSUMPTIONS = ['BLAS/OpenMP thread counts held fixed at 1 (the property excludes
                'one machine, one library build']
 REQUIRED = ['four_processes', 'hashseed_0', 'hashseed_1', 'hashseed_123', 'hashseed_random', 'reversed_order',
             'in_process_repeat', 'tmp_seed_raising_body', 'cached_gaussian_prior_state', 'demo', 'direct_gmm_seed0',
-            'gmm_fitted']
+            'gmm_fitted', 'same_data_other_prms_before']
 SIZES = {'quick': dict(groups=8, per=9), 'thorough': dict(groups=40, per=16)}
 HASHSEEDS = ['0', '1', '123', 'random']
 
@@ -137,6 +137,23 @@ def check_digest(desc):
             if set_prior(rng, r):
                 tags.add('cached_gaussian_prior_state')
             df = scenes.frame(case['scene'])
+            if r == 2:
+                # "what was processed before": the very same hits with other parameter values (a memo keyed
+                # on the data alone would now serve stale results)
+                other = copy.deepcopy(case['prm'])
+                other['call'].update({'LOWESS': {'frac': 0.9, 'it': 0}, 'BASE_LVL_HEIGHT_PERC': 63.0,
+                                      'BASE_LVL_LOOKBACK_PERC': 37.0, 'MAX_HITS_OKTA0': 1, 'MAX_HOLES_OKTA8': 3,
+                                      'MIN_SEP_VALS': [40.0], 'MIN_SEP_LIMS': [],
+                                      'GROUPING_PRMS': {'height_pad_perc': 35.0, 'dt_scale': 77.0, 'height_scale_range': [33.0, 333.0]},
+                                      'LAYERING_PRMS': {'min_okta_to_split': 1, 'gmm_kwargs': {'scores': 'AIC', 'delta_mul_gain': 0.8}}})
+                other['call'].pop('MSA', None)
+                try:
+                    with warnings.catch_warnings():
+                        warnings.simplefilter('ignore')
+                        obs.run(df, other)
+                    tags.add('same_data_other_prms_before')
+                except Exception:       # noqa - irrelevant here
+                    pass
             reps = 2 if r == 3 else 1
             for rep in range(reps):
                 from .. import instrument
